@@ -1,7 +1,8 @@
 //! Read-only introspection used by external verification harnesses.
 //!
 //! Only compiled with `--cfg futures_intrusive_verif`. Nothing in here is
-//! part of the public API of the crate and nothing in here mutates state.
+//! part of the public API of the crate and nothing in here mutates state
+//! (the `AtomicUsize` wrapper passes every operation through unchanged).
 
 use alloc::vec::Vec;
 use core::task::Waker;
@@ -40,5 +41,122 @@ pub fn waker_id(w: &Option<Waker>) -> usize {
     match w {
         Some(w) => w.data() as usize,
         None => 0,
+    }
+}
+
+pub use core::sync::atomic::Ordering;
+
+static HOOK_BEFORE: core::sync::atomic::AtomicUsize =
+    core::sync::atomic::AtomicUsize::new(0);
+static HOOK_AFTER: core::sync::atomic::AtomicUsize =
+    core::sync::atomic::AtomicUsize::new(0);
+
+/// Installs callbacks which run before and after every operation on the
+/// handle counters of the shared channels: `before()` (a harness turns it
+/// into a scheduling point) and `after(operation, previous value)`.
+pub fn set_atomic_hooks(before: fn(), after: fn(&'static str, usize)) {
+    HOOK_BEFORE.store(before as usize, Ordering::SeqCst);
+    HOOK_AFTER.store(after as usize, Ordering::SeqCst);
+}
+
+fn hook_before() {
+    let f = HOOK_BEFORE.load(Ordering::SeqCst);
+    if f != 0 {
+        // Safety: only set_atomic_hooks stores into the cell
+        let f: fn() = unsafe { core::mem::transmute(f) };
+        f();
+    }
+}
+
+fn hook_after(op: &'static str, old: usize) {
+    let f = HOOK_AFTER.load(Ordering::SeqCst);
+    if f != 0 {
+        // Safety: only set_atomic_hooks stores into the cell
+        let f: fn(&'static str, usize) = unsafe { core::mem::transmute(f) };
+        f(op, old);
+    }
+}
+
+/// Stand-in for `core::sync::atomic::AtomicUsize` used for the handle
+/// counters of the shared channels: every operation is the real one,
+/// bracketed by the hooks. Other methods reach the real atomic through Deref.
+#[derive(Debug, Default)]
+pub struct AtomicUsize(core::sync::atomic::AtomicUsize);
+
+impl AtomicUsize {
+    /// See `core::sync::atomic::AtomicUsize::new`
+    pub const fn new(v: usize) -> Self {
+        AtomicUsize(core::sync::atomic::AtomicUsize::new(v))
+    }
+    /// See `core::sync::atomic::AtomicUsize::load`
+    pub fn load(&self, o: Ordering) -> usize {
+        hook_before();
+        let r = self.0.load(o);
+        hook_after("load", r);
+        r
+    }
+    /// See `core::sync::atomic::AtomicUsize::store`
+    pub fn store(&self, v: usize, o: Ordering) {
+        hook_before();
+        let r = self.0.swap(v, Ordering::SeqCst);
+        let _ = o;
+        hook_after("store", r);
+    }
+    /// See `core::sync::atomic::AtomicUsize::swap`
+    pub fn swap(&self, v: usize, o: Ordering) -> usize {
+        hook_before();
+        let r = self.0.swap(v, o);
+        hook_after("swap", r);
+        r
+    }
+    /// See `core::sync::atomic::AtomicUsize::fetch_add`
+    pub fn fetch_add(&self, v: usize, o: Ordering) -> usize {
+        hook_before();
+        let r = self.0.fetch_add(v, o);
+        hook_after("fetch_add", r);
+        r
+    }
+    /// See `core::sync::atomic::AtomicUsize::fetch_sub`
+    pub fn fetch_sub(&self, v: usize, o: Ordering) -> usize {
+        hook_before();
+        let r = self.0.fetch_sub(v, o);
+        hook_after("fetch_sub", r);
+        r
+    }
+    /// See `core::sync::atomic::AtomicUsize::compare_exchange`
+    pub fn compare_exchange(
+        &self,
+        current: usize,
+        new: usize,
+        success: Ordering,
+        failure: Ordering,
+    ) -> Result<usize, usize> {
+        hook_before();
+        let r = self.0.compare_exchange(current, new, success, failure);
+        hook_after(
+            "compare_exchange",
+            match r {
+                Ok(x) | Err(x) => x,
+            },
+        );
+        r
+    }
+    /// See `core::sync::atomic::AtomicUsize::compare_exchange_weak`
+    /// (never fails spuriously here)
+    pub fn compare_exchange_weak(
+        &self,
+        current: usize,
+        new: usize,
+        success: Ordering,
+        failure: Ordering,
+    ) -> Result<usize, usize> {
+        self.compare_exchange(current, new, success, failure)
+    }
+}
+
+impl core::ops::Deref for AtomicUsize {
+    type Target = core::sync::atomic::AtomicUsize;
+    fn deref(&self) -> &Self::Target {
+        &self.0
     }
 }
